@@ -38,6 +38,63 @@ static cred_t bad_leaf_s, bad_leaf_c;      /* leaves issued by a non-CA certific
 static cred_t alt_leaf_s, alt_leaf_c;      /* second valid leaves under the same CA */
 static cred_t senc_b;                      /* TLCP encryption certificate issued by the other hierarchy's CA */
 static cred_t ca_forged, ssign_f, senc_f, csign_f;   /* an intermediate that NAMES the trusted root as issuer but is signed with the attacker's key, and leaves under it */
+
+/* like mk_cert (tls_peer.h), with a chosen serial number and, if noexts, without an Extensions field at all */
+static int mk_cert_ex(cred_t *subj, const cred_t *issuer, int ca, int pathlen, int ku, time_t nb, time_t na,
+	const uint8_t *serial_in, size_t serial_len, int noexts) {
+	uint8_t serial[20], exts[512]; size_t extslen = 0; uint8_t *p = subj->der; const cred_t *iss = issuer ? issuer : subj;
+	if (serial_in && serial_len <= sizeof serial) memcpy(serial, serial_in, serial_len);
+	else { serial_len = 12; rand_bytes(serial, 12); serial[0] &= 0x7f; serial[0] |= 0x40; }
+	if (!noexts) {
+		if (ku && x509_exts_add_key_usage(exts, &extslen, sizeof(exts), X509_critical, ku) != 1) return -1;
+		if ((ca >= 0 || pathlen >= 0) && x509_exts_add_basic_constraints(exts, &extslen, sizeof(exts), X509_critical, ca, pathlen) != 1) return -1;
+	}
+	subj->len = 0;
+	if (x509_cert_sign_to_der(X509_version_v3, serial, serial_len, OID_sm2sign_with_sm3,
+		iss->name, iss->namelen, nb, na, subj->name, subj->namelen, &subj->key,
+		NULL, 0, NULL, 0, extslen ? exts : NULL, extslen, &iss->key, SM2_DEFAULT_ID, SM2_DEFAULT_ID_LENGTH,
+		&p, &subj->len) != 1) return -1;
+	return subj->len <= sizeof(subj->der) ? 1 : -1;
+}
+/* look-alike of the trust anchor: self-signed, the anchor's subject name and serial number, the attacker's key; and
+ * credentials under it */
+static cred_t root_like, ca_like, ssign_l, senc_l, csign_l, ssign_ld, senc_ld, csign_ld;
+/* issuers that must not be issuers: an end-user certificate without any Extensions field (noext_u), a certificate with
+ * keyUsage but without basicConstraints (nobc_n); leaves directly under them and under a proper-looking CA they issued */
+static cred_t noext_u, nobc_n, ca_under_u, ca_under_n, s_u, e_u, c_u, s_ud, e_ud, c_ud, s_nd, e_nd, c_nd;
+static int mk_more_pki(void) {
+	const uint8_t *iss, *ser; size_t isslen, serlen;
+	if (x509_cert_get_issuer_and_serial_number(pki.root.der, pki.root.len, &iss, &isslen, &ser, &serlen) != 1) return -1;
+	root_like = pki.root; root_like.key = pki.root2.key;
+	if (mk_cert_ex(&root_like, NULL, 1, -1, X509_KU_KEY_CERT_SIGN, T0 - 3 * DAY, T0 + 3650 * DAY, ser, serlen, 0) != 1) return -1;
+	if (mk_leaf(&ssign_l, &root_like, "localhost", X509_KU_DIGITAL_SIGNATURE, T0 - DAY, T0 + 365 * DAY) != 1
+		|| mk_leaf(&senc_l, &root_like, "localhost", X509_KU_KEY_ENCIPHERMENT, T0 - DAY, T0 + 365 * DAY) != 1
+		|| mk_leaf(&csign_l, &root_like, "client", X509_KU_DIGITAL_SIGNATURE, T0 - DAY, T0 + 365 * DAY) != 1) return -1;
+	if (sm2_key_generate(&ca_like.key) != 1 || mk_name(&ca_like, "Sub CA L 0") != 1
+		|| mk_cert(&ca_like, &root_like, 1, 0, X509_KU_KEY_CERT_SIGN, T0 - 2 * DAY, T0 + 365 * DAY) != 1
+		|| mk_leaf(&ssign_ld, &ca_like, "localhost", X509_KU_DIGITAL_SIGNATURE, T0 - DAY, T0 + 365 * DAY) != 1
+		|| mk_leaf(&senc_ld, &ca_like, "localhost", X509_KU_KEY_ENCIPHERMENT, T0 - DAY, T0 + 365 * DAY) != 1
+		|| mk_leaf(&csign_ld, &ca_like, "client", X509_KU_DIGITAL_SIGNATURE, T0 - DAY, T0 + 365 * DAY) != 1) return -1;
+	/* U: issued by the trusted root itself (so no pathLenConstraint of an intermediate stands in the way), no Extensions field */
+	if (sm2_key_generate(&noext_u.key) != 1 || mk_name(&noext_u, "End User U") != 1
+		|| mk_cert_ex(&noext_u, &pki.root, -1, -1, 0, T0 - 2 * DAY, T0 + 365 * DAY, NULL, 0, 1) != 1) return -1;
+	if (sm2_key_generate(&nobc_n.key) != 1 || mk_name(&nobc_n, "End User N") != 1
+		|| mk_cert_ex(&nobc_n, &pki.root, -1, -1, X509_KU_DIGITAL_SIGNATURE | X509_KU_KEY_CERT_SIGN, T0 - 2 * DAY, T0 + 365 * DAY, NULL, 0, 0) != 1) return -1;
+	if (mk_leaf(&s_u, &noext_u, "localhost", X509_KU_DIGITAL_SIGNATURE, T0 - DAY, T0 + 365 * DAY) != 1
+		|| mk_leaf(&e_u, &noext_u, "localhost", X509_KU_KEY_ENCIPHERMENT, T0 - DAY, T0 + 365 * DAY) != 1
+		|| mk_leaf(&c_u, &noext_u, "client", X509_KU_DIGITAL_SIGNATURE, T0 - DAY, T0 + 365 * DAY) != 1) return -1;
+	if (sm2_key_generate(&ca_under_u.key) != 1 || mk_name(&ca_under_u, "Sub CA under U") != 1
+		|| mk_cert(&ca_under_u, &noext_u, 1, 0, X509_KU_KEY_CERT_SIGN, T0 - 2 * DAY, T0 + 365 * DAY) != 1
+		|| mk_leaf(&s_ud, &ca_under_u, "localhost", X509_KU_DIGITAL_SIGNATURE, T0 - DAY, T0 + 365 * DAY) != 1
+		|| mk_leaf(&e_ud, &ca_under_u, "localhost", X509_KU_KEY_ENCIPHERMENT, T0 - DAY, T0 + 365 * DAY) != 1
+		|| mk_leaf(&c_ud, &ca_under_u, "client", X509_KU_DIGITAL_SIGNATURE, T0 - DAY, T0 + 365 * DAY) != 1) return -1;
+	if (sm2_key_generate(&ca_under_n.key) != 1 || mk_name(&ca_under_n, "Sub CA under N") != 1
+		|| mk_cert(&ca_under_n, &nobc_n, 1, 0, X509_KU_KEY_CERT_SIGN, T0 - 2 * DAY, T0 + 365 * DAY) != 1
+		|| mk_leaf(&s_nd, &ca_under_n, "localhost", X509_KU_DIGITAL_SIGNATURE, T0 - DAY, T0 + 365 * DAY) != 1
+		|| mk_leaf(&e_nd, &ca_under_n, "localhost", X509_KU_KEY_ENCIPHERMENT, T0 - DAY, T0 + 365 * DAY) != 1
+		|| mk_leaf(&c_nd, &ca_under_n, "client", X509_KU_DIGITAL_SIGNATURE, T0 - DAY, T0 + 365 * DAY) != 1) return -1;
+	return 1;
+}
 static pki_t *get_pki(void) {
 	if (!pki_ready) {
 		ent_seed(0xC09000, -1); ent_clock(T0);
@@ -57,6 +114,7 @@ static pki_t *get_pki(void) {
 				|| mk_leaf(&senc_f, &ca_forged, "localhost", X509_KU_KEY_ENCIPHERMENT, T0 - DAY, T0 + 365 * DAY) != 1
 				|| mk_leaf(&csign_f, &ca_forged, "client", X509_KU_DIGITAL_SIGNATURE, T0 - DAY, T0 + 365 * DAY) != 1) return NULL;
 		}
+		if (mk_more_pki() != 1) return NULL;
 		pki_ready = 1;
 	}
 	return &pki;
@@ -74,7 +132,7 @@ static void handle(size_t nw, char **w) {
 		uint8_t *vanchors = NULL; size_t vanchorslen = 0; int anon_client = 0;
 		uint8_t *big = NULL; size_t biglen = 0; int bigpos = -1; static cred_t far_leaf_s, far_leaf_c;
 		int replay = 0, pass; sigstore_t store; memset(&store, 0, sizeof store);
-		int tlcp = protocol == TLS_protocol_tlcp;
+		int tlcp = protocol == TLS_protocol_tlcp; const cred_t *xtra[4] = { NULL, NULL, NULL, NULL }; int nx = 0, lone = 0, xi;
 		if (!k || protocol < 0) { printf("ERR setup"); return; }
 		S = calloc(1, sizeof(*S));
 		sencleaf = &k->senc;
@@ -115,9 +173,19 @@ static void handle(size_t nw, char **w) {
 		else if (!strcmp(df, "forged-intermediate")) {
 			if (verifier_is_client) { sleaf = &ssign_f; skey = &ssign_f.key; sencleaf = &senc_f; sekey = &senc_f.key; } else { cleaf = &csign_f; ckey = &csign_f.key; }
 		}
+		else if (!strcmp(df, "anchor-lookalike")) { if (verifier_is_client) { sleaf = &ssign_l; skey = &ssign_l.key; sencleaf = &senc_l; sekey = &senc_l.key; } else { cleaf = &csign_l; ckey = &csign_l.key; } xtra[0] = &root_like; nx = 1; }
+		else if (!strcmp(df, "anchor-lookalike-deep")) { if (verifier_is_client) { sleaf = &ssign_ld; skey = &ssign_ld.key; sencleaf = &senc_ld; sekey = &senc_ld.key; } else { cleaf = &csign_ld; ckey = &csign_ld.key; } xtra[0] = &ca_like; xtra[1] = &root_like; nx = 2; }
+		else if (!strcmp(df, "anchor-lookalike-not-sent")) { if (verifier_is_client) { sleaf = &ssign_l; skey = &ssign_l.key; sencleaf = &senc_l; sekey = &senc_l.key; } else { cleaf = &csign_l; ckey = &csign_l.key; } nx = 0; lone = 1; }
+		else if (!strcmp(df, "issuer-no-extensions")) { if (verifier_is_client) { sleaf = &s_u; skey = &s_u.key; sencleaf = &e_u; sekey = &e_u.key; } else { cleaf = &c_u; ckey = &c_u.key; } xtra[0] = &noext_u; nx = 1; }
+		else if (!strcmp(df, "issuer-no-extensions-deep")) { if (verifier_is_client) { sleaf = &s_ud; skey = &s_ud.key; sencleaf = &e_ud; sekey = &e_ud.key; } else { cleaf = &c_ud; ckey = &c_ud.key; } xtra[0] = &ca_under_u; xtra[1] = &noext_u; nx = 2; }
+		else if (!strcmp(df, "issuer-not-ca-deep")) { if (verifier_is_client) { sleaf = &s_nd; skey = &s_nd.key; sencleaf = &e_nd; sekey = &e_nd.key; } else { cleaf = &c_nd; ckey = &c_nd.key; } xtra[0] = &ca_under_n; xtra[1] = &nobc_n; nx = 2; }
 		else { printf("ERR bad-defect"); free(S); return; }
 
-		if (!strcmp(df, "untrusted-root") || (!strcmp(df, "anchors-oversize") && verifier_is_client)) {
+		if (nx || lone) {
+			/* the forger's chain: leaf (and TLCP encryption leaf), then the listed certificates */
+			if (verifier_is_client) { chain_add(&schain, &schainlen, sleaf); if (tlcp) chain_add(&schain, &schainlen, sencleaf); for (xi = 0; xi < nx; xi++) chain_add(&schain, &schainlen, xtra[xi]); chain_build(&cchain, &cchainlen, k, cleaf, NULL); }
+			else { chain_add(&cchain, &cchainlen, cleaf); for (xi = 0; xi < nx; xi++) chain_add(&cchain, &cchainlen, xtra[xi]); chain_build(&schain, &schainlen, k, sleaf, tlcp ? sencleaf : NULL); }
+		} else if (!strcmp(df, "untrusted-root") || (!strcmp(df, "anchors-oversize") && verifier_is_client)) {
 			/* chain under the second hierarchy */
 			if (verifier_is_client) { chain_add(&schain, &schainlen, sleaf); if (tlcp) chain_add(&schain, &schainlen, sencleaf); chain_add(&schain, &schainlen, &k->ca2); chain_build(&cchain, &cchainlen, k, cleaf, NULL); }
 			else { chain_add(&cchain, &cchainlen, cleaf); chain_add(&cchain, &cchainlen, &k->ca2); chain_build(&schain, &schainlen, k, sleaf, tlcp ? sencleaf : NULL); }
@@ -191,6 +259,42 @@ static void handle(size_t nw, char **w) {
 		printf("init=ok cfg=%d%d ", ep_anchors_intact(&S->c), ep_anchors_intact(&S->s));
 		printf("rc=%d rs=%d okc=%d oks=%d", S->c.hs_ret, S->s.hs_ret, S->c.post_accepted == 2 && !S->c.post_deviates, S->s.post_accepted == 2 && !S->s.post_deviates);
 		session_close(S); free(schain); free(cchain); free(vanchors); free(big); free(S);
+	}
+	else if (!strcmp(w[0], "skesig") && nw == 3) {
+		/* observer: in an honest TLS 1.2 session the ServerKeyExchange signature, as captured by the client, must verify
+		 * (sm2_verify called directly, key taken from the presented certificate) over client_random || server_random ||
+		 * ServerECDHParams INCLUDING the 65 octets of the point -- and must not verify over the same bytes with another point */
+		int auth = atoi(w[1]); uint64_t seed = strtoull(w[2], NULL, 10); pki_t *k = get_pki(); session_t *S; int i, ok = -1, other = -1;
+		uint8_t *schain = NULL, *cchain = NULL; size_t schainlen = 0, cchainlen = 0;
+		const uint8_t *cr = NULL, *sr = NULL, *cert = NULL, *ske = NULL; size_t certlen = 0, skelen = 0;
+		if (!k) { printf("ERR setup"); return; }
+		S = calloc(1, sizeof(*S));
+		chain_build(&schain, &schainlen, k, &k->ssign, NULL); chain_build(&cchain, &cchainlen, k, &k->csign, NULL);
+		if (ep_setup(&S->s, TLS_protocol_tls12, 0, schain, schainlen, &k->ssign.key, NULL, auth ? k->root.der : NULL, auth ? k->root.len : 0) != 1
+			|| ep_setup(&S->c, TLS_protocol_tls12, 1, auth ? cchain : NULL, auth ? cchainlen : 0, auth ? &k->csign.key : NULL, NULL, k->root.der, k->root.len) != 1) { printf("ERR setup"); free(S); return; }
+		S->c.seed = seed * 2 + 1; S->s.seed = seed * 2 + 2; S->c.post = S->s.post = 1;
+		session_run(S, 3000, 0);
+		for (i = 0; i < S->c.view.n; i++) {
+			const uint8_t *p = S->c.view.r[i].p; size_t n = S->c.view.r[i].len;
+			if (n < 9 || p[0] != 22) continue;
+			if (p[5] == 1 && n >= 9 + 34 && !cr) cr = p + 9 + 2;
+			else if (p[5] == 2 && n >= 9 + 34 && !sr) sr = p + 9 + 2;
+			else if (p[5] == 11 && n >= 9 + 6 && !cert) { certlen = ((size_t)p[12] << 16) | ((size_t)p[13] << 8) | p[14]; cert = p + 15; if (15 + certlen > n) cert = NULL; }
+			else if (p[5] == 12 && !ske) { ske = p + 9; skelen = n - 9; }
+		}
+		if (S->c.hs_ret == 1 && S->s.hs_ret == 1 && cr && sr && cert && ske && skelen >= 69 + 4) {
+			SM2_KEY pub; SM2_VERIFY_CTX vc; size_t sl = ((size_t)ske[71] << 8) | ske[72]; uint8_t params[69];
+			if (73 + sl <= skelen && x509_cert_get_subject_public_key(cert, certlen, &pub) == 1) {
+				ok = sm2_verify_init(&vc, &pub, SM2_DEFAULT_ID, SM2_DEFAULT_ID_LENGTH) == 1 && sm2_verify_update(&vc, cr, 32) == 1 && sm2_verify_update(&vc, sr, 32) == 1
+					&& sm2_verify_update(&vc, ske, 69) == 1 && sm2_verify_finish(&vc, ske + 73, sl) == 1;
+				memcpy(params, ske, 69); memcpy(params + 4, k->csign2.der, 0);
+				{ SM2_KEY other_key; uint8_t oct[65]; ent_seed(seed + 4242, -1); sm2_key_generate(&other_key); sm2_z256_point_to_uncompressed_octets(&other_key.public_key, oct); memcpy(params + 4, oct, 65); }
+				other = sm2_verify_init(&vc, &pub, SM2_DEFAULT_ID, SM2_DEFAULT_ID_LENGTH) == 1 && sm2_verify_update(&vc, cr, 32) == 1 && sm2_verify_update(&vc, sr, 32) == 1
+					&& sm2_verify_update(&vc, params, 69) == 1 && sm2_verify_finish(&vc, ske + 73, sl) == 1;
+			}
+		}
+		printf("rc=%d rs=%d skesig=%d otherpoint=%d", S->c.hs_ret, S->s.hs_ret, ok, other);
+		session_close(S); free(schain); free(cchain); free(S);
 	}
 	else printf("ERR bad-op");
 }
